@@ -53,8 +53,14 @@ def unit_bytes(v, gran):
     return [(v >> (8 * j)) & 0xFF for j in range(gran)]   # code file stores units little endian (host order)
 
 
+def bin_byte(k, i):
+    """deterministic pattern: byte i of the file included by statement k"""
+    return (k * 37 + i * 11 + 5) % 256
+
+
 def render(beh, cpu_stmt=True):
-    """beh: list of steps from CodeWriter_Gen hist.  Returns (source, expected list of (seg, byteaddr, byte)).
+    """beh: list of steps from CodeWriter_Gen / CodeWriter_GenFam hist.
+    Returns (source, expected list of (seg, byteaddr, byte)).
     cpu_stmt=False: no CPU statement for the initial target (it is given with -cpu on the command line)."""
     lines = []
     exp = []
@@ -68,16 +74,24 @@ def render(beh, cpu_stmt=True):
             if a == "CPU":
                 continue
         if a == "EMIT":
+            via = st.get("via", "plain")
+            n = st["n"]
+            g = seg_gran(d, st["seg"])
+            body = []
             for rep in range(st["count"]):
-                n = st["n"]
-                kk = k * 100 + rep
-                g = seg_gran(d, st["seg"])
+                kk = k * 100 + (0 if via == "rept" else rep)      # a REPT body is the same line every time
                 vals = [unit_value(kk, i, d["bits"] if g == d["gran"] else 8 * g) for i in range(n)]
-                lines.append("\t%s %s" % (d["data"], ",".join(str(v) for v in vals)))
+                body.append("\t%s %s" % (d["data"], ",".join(str(v) for v in vals)))
                 base = (st["addr"] + rep * n) * g
                 for i, v in enumerate(vals):
                     for j, b in enumerate(unit_bytes(v, g)):
                         exp.append((SEGNO[st["seg"]], base + i * g + j, b))
+            if via == "plain":
+                lines += body
+            elif via == "macro":                                   # the data statements come out of a macro call
+                lines += ["m%d\tmacro" % k] + body + ["\tendm", "\tm%d" % k]
+            else:                                                  # ... or out of a REPT body
+                lines += ["\trept %d" % st["count"], body[0], "\tendm"]
         elif a == "PAR":
             lines.append("\tabsf *ar4++,r6")
             lines.append("||\tstf r6,*ar5++")
@@ -87,11 +101,43 @@ def render(beh, cpu_stmt=True):
             lines.append("\t%s %d" % (d["res"], st["n"]))
         elif a == "ORG":
             lines.append("\torg %d" % st["to"])
+        elif a == "RORG":
+            lines.append("\trorg %d" % st["d"])
         elif a == "SEGMENT":
             lines.append("\tsegment %s" % st["seg"])
+        elif a == "SAVE":
+            lines.append("\tsave")
+        elif a == "RESTORE":
+            lines.append("\trestore")
+            cur = st["dial"]
+        elif a == "PHASE":
+            lines.append("\tphase %d" % st["to"])
+        elif a == "DEPHASE":
+            lines.append("\tdephase")
+        elif a == "ALIGN":
+            g = seg_gran(d, st["seg"])
+            if st["fill"] < 0:
+                lines.append("\talign %d" % st["al"])
+            else:
+                lines.append("\talign %d,%d" % (st["al"], st["fill"]))
+                for j in range(st["n"] * g):
+                    exp.append((SEGNO[st["seg"]], st["addr"] * g + j, st["fill"]))
+        elif a == "STRUCT":
+            lines += ["s%d\tstruct" % k, "f%d\t%s %d" % (k, d["res"], st["n"]), "\tendstruct"]
+        elif a == "BINCLUDE":
+            args = ['"b%d.bin"' % k] + ([str(st["off"])] if st["form"] >= 2 else []) + ([str(st["n"])] if st["form"] == 3 else [])
+            lines.append("\tbinclude %s" % ",".join(args))
+            for i in range(st["n"]):
+                exp.append((SEGNO[st["seg"]], st["addr"] + i, bin_byte(k, st["off"] + i)))
         elif a == "END":
             lines.append("\tend %d" % st["entry"] if st["entry"] < 1000000 else "\tend")
     return "\n".join(lines) + "\n", exp
+
+
+def render_files(beh):
+    """the files the BINCLUDE statements of a behaviour refer to"""
+    return {"b%d.bin" % k: bytes(bin_byte(k, i) for i in range(st["flen"]))
+            for k, st in enumerate(beh, 1) if st["a"] == "BINCLUDE"}
 
 
 def file_events(trace, parsed):
